@@ -4,6 +4,8 @@ import (
 	"fmt"
 	"sort"
 	"strings"
+	"sync"
+	"sync/atomic"
 
 	"github.com/paulmach/osm"
 
@@ -964,7 +966,87 @@ func c18Multi(ck *c18Checker, r *gen.R, n int) {
 	}
 }
 
+// c18Cold: the library's very first use in a process, by many goroutines at once. The rule
+// table is package state built at start-up; the answer must not depend on who asks first.
+func c18Cold(c fw.Case) *fw.Result {
+	res := fw.NewResult()
+	type q struct {
+		w    *osm.Way
+		want bool
+		desc string
+	}
+	var qs []q
+	ring := []int64{1, 2, 3, 4, 1}
+	for _, key := range c18KeyOrder {
+		vals := append([]string{"yes", "no", "unlisted_value"}, c18OwnListed(key)...)
+		for _, v := range vals {
+			tags := []c18Tag{{key, v}}
+			qs = append(qs, q{c18Way(ring, tags), c18RefTags(c18TagSet(tags), false), key + "=" + v})
+		}
+	}
+	const G = 64
+	start := make(chan struct{})
+	var wg sync.WaitGroup
+	var mu sync.Mutex
+	wrong := map[string]int{}
+	var calls atomic.Int64
+	for g := 0; g < G; g++ {
+		wg.Add(1)
+		go func(g int) {
+			defer wg.Done()
+			<-start
+			for i := range qs {
+				x := qs[(i+g*7)%len(qs)]
+				if got := x.w.Polygon(); got != x.want {
+					mu.Lock()
+					wrong[x.desc]++
+					mu.Unlock()
+				}
+				calls.Add(1)
+			}
+		}(g)
+	}
+	close(start)
+	wg.Wait()
+	res.Event(calls.Load())
+	res.Add("coldstart_concurrent_calls", calls.Load())
+	if len(wrong) > 0 {
+		var ex []string
+		for d, n := range wrong {
+			ex = append(ex, fmt.Sprintf("%s (%d×)", d, n))
+			if len(ex) >= 8 {
+				break
+			}
+		}
+		res.Violatef("C18/coldstart/concurrent-first-use", "Way.Polygon() gave wrong answers while %d goroutines made the first calls of the process concurrently: %s", G, strings.Join(ex, ", "))
+	}
+	res.Eval("coldstart/" + c.Variant)
+	res.Sample = map[string]any{"goroutines": G, "queries": len(qs), "variant": c.Variant}
+	return res
+}
+
 func c18Exec(c fw.Case) *fw.Result {
+	if c.Kind == "coldstart" {
+		if fw.IsCold() {
+			return c18Cold(c)
+		}
+		res := fw.NewResult()
+		for i := 0; i < int(c.Int("processes")); i++ {
+			r := fw.RunCold("C18", c, "C18/coldstart/crash")
+			res.Evals += r.Evals
+			res.Events += r.Events
+			res.Sigs = append(res.Sigs, r.Sigs...)
+			res.Violations = append(res.Violations, r.Violations...)
+			res.Inconclusive = append(res.Inconclusive, r.Inconclusive...)
+			res.RaceReports = append(res.RaceReports, r.RaceReports...)
+			for k, v := range r.Counts {
+				res.Counts[k] += v
+			}
+			res.Sample = r.Sample
+		}
+		res.Add("coldstart_processes", c.Int("processes"))
+		return res
+	}
 	res := fw.NewResult()
 	c18Stats()
 	c18CheckListedInOrder()
@@ -1043,10 +1125,15 @@ func init() {
 			for i := 0; i < nMulti; i++ {
 				cs = append(cs, fw.Case{Kind: "multi", Seed: gen.Sub(seed, "c18multi", i), P: map[string]int64{"n": per}})
 			}
+			// the first use of the rule table in a fresh process, by 64 goroutines at once
+			for _, v := range []string{"plain", "race"} {
+				cs = append(cs, fw.Case{Kind: "coldstart", Variant: v, P: map[string]int64{"processes": 6}})
+			}
 			return fw.Number(cs)
 		},
-		Exec:       c18Exec,
-		Exhaustive: func(string) bool { return true },
+		Exec:            c18Exec,
+		RaceIsViolation: true,
+		Exhaustive:      func(string) bool { return true },
 		Post: func(tier string, agg *fw.Agg) {
 			st := c18Stats()
 			agg.Extra["reference_table"] = map[string]any{
